@@ -2,6 +2,8 @@
 
 Scenario:
   {"kind": "wire" | "cable", "cfg": {"pn", "pd", "none"}, "unit": [num, den], "intd": 0/1, "echo": 0/1, "ptime": 0/1,
+   "replug": n        the far end is connected n times to other receivers before it is connected to the real one, and
+                      "replug_at": [t...] re-assigns the same receiver again at these instants (lattice units),
    "dirs": [{"arr": [{"t", "src", "re"}...], "dl": [d...], "us": [[un, ud]...]}, ...]}      (1 entry for a wire, 2 for a cable)
 Result: {"sub": [trace per direction]}, trace = {"cfg", "ev"}; every direction is validated as its own Wire instance.
 
@@ -163,10 +165,21 @@ def run_one(sc):
                 log(k, e="A", id=nid[k], obj=o, al=1 if cnt[o] > 1 else 0,
                     at=lat(getattr(pkt, "current_time", None)), **state(k))
 
+    class Decoy:
+        """a receiver the wire was connected to before it was re-plugged: nothing may reach it any more"""
+        out = None
+
+        def put(self, pkt):
+            for k in range(1, ndir + 1):
+                log(k, e="X", type="DeliveredToFormerReceiver")
+
+    replug = sc.get("replug", 0)
     try:
         if sc["kind"] == "cable":
             cable = Cable(env, delay_dist, rate, wire_id=sc.get("wid", 0))
             dev1, dev2 = End(2, 1), End(1, 2)
+            for _ in range(replug):
+                cable.set_endpoints(Decoy(), Decoy())       # plugged in elsewhere first, then re-plugged
             cable.set_endpoints(dev1, dev2)
             wires[1], wires[2] = cable.wire1, cable.wire2
             senders = {1: dev1, 2: dev2}
@@ -177,6 +190,8 @@ def run_one(sc):
                 w = Wire(env, delay_dist, rate, wire_id=sc.get("wid", 0))
             src, dst = End(0, 1), End(1, 0)
             src.out = w
+            for _ in range(replug):
+                w.out = Decoy()
             w.out = dst
             wires[1] = w
             senders = {1: src}
@@ -210,6 +225,19 @@ def run_one(sc):
     for k in range(1, ndir + 1):
         arr = [{"t": real(a["t"]), "src": a.get("src", 1), "re": a.get("re", -1)} for a in dirs[k - 1]["arr"]]
         netlib.injector(env, None, arr, maker(k), Target(senders[k]), lambda i, a, p: None)
+
+    def replugger(times):
+        for t in times:
+            d = real(t) - env.now
+            if d > 0:
+                yield env.timeout(d)
+            # the same receiver, assigned again (a harmless re-configuration while packets may be in flight)
+            if sc["kind"] == "cable":
+                cable.set_endpoints(dev1, dev2)
+            else:
+                w.out = dst
+    if sc.get("replug_at"):
+        env.process(replugger(sorted(sc["replug_at"])))
 
     rec = netlib.Recorder(env)
     ok = netlib.run_env(env, rec)
